@@ -85,7 +85,7 @@ class C05Machine(Machine):
         "merge_adds_uri_synonym_only", "merge_keeps_pattern", "merge_into_start_built", "same_object_twice",
         "empty_prefix_token", "empty_uri_prefix_token", "start_from_chain", "start_from_subconverter",
         "retry_rejected_now_accepted", "retry_rejected_again_rejected", "other_side_of_rejected_appended", "other_side_of_rejected_merged_elsewhere",
-        "start_from_reconciliation", "submission_with_own_case_variants", "large_converter", "merge_into_record_past_position_256", "flag_left_to_its_default", "big_submission", "synonym_repeated_in_own_record", "start_converter_not_observed", "call_not_observed", "catch_up_observation",
+        "start_from_reconciliation", "submission_with_own_case_variants", "large_converter", "merge_into_record_past_position_256", "flag_left_to_its_default", "big_submission", "synonym_repeated_in_own_record", "start_converter_not_observed", "call_not_observed", "catch_up_observation", "focus_on_unmentioned_name_of_merge_target",
     ]
 
     @classmethod
@@ -506,6 +506,25 @@ class C05Machine(Machine):
             + [u + "1" for u in [rd["uri_prefix"], *rd["uri_prefix_synonyms"]][:3]]
             + [rd["prefix"], rd["uri_prefix"]]))
         fpairs = [(p, "1") for p in [rd["prefix"], *rd["prefix_synonyms"]][:3]]
+        # ... and on OTHER names of the record the submission is going to be merged into (names the
+        # submission does not mention), and on one unrelated registered name
+        hit = self.model.matches(mrec, cs)
+        others_c, others_u = [], []
+        if len(hit) == 1:
+            others_c = [p for p in sorted(hit[0].all_prefixes()) if p not in mrec.all_prefixes()][:2]
+            others_u = [u for u in sorted(hit[0].all_uri_prefixes()) if u not in mrec.all_uri_prefixes()][:2]
+            if others_c or others_u:
+                self.probe("focus_on_unmentioned_name_of_merge_target")
+        unrelated = [r for r in self.model.records if r not in hit][:1]
+        extra_strings = [p + d + "1" for p in others_c] + [u + "1" for u in others_u] + \
+                        [r.prefix + d + "1" for r in unrelated] + [r.uri_prefix + "1" for r in unrelated]
+        extra_pairs = [(p, "1") for p in others_c] + [(r.prefix, "1") for r in unrelated]
+        if self.n_calls % 2:
+            fstrings = list(dict.fromkeys(fstrings + extra_strings))       # the unmentioned names are asked last
+            fpairs = list(dict.fromkeys(fpairs + extra_pairs))
+        else:
+            fstrings = list(dict.fromkeys(extra_strings + fstrings))
+            fpairs = list(dict.fromkeys(extra_pairs + fpairs))
         pre_focus = observe.answers(conv, fstrings, fpairs, full=False)
         self.focus = (fstrings, fpairs)
 
